@@ -575,6 +575,26 @@ def differential(prop_id, cases, monitor=None, finding_class=None, nontrivial=No
     return violations, stats
 
 
+def invariance(prop_id, pairs, what):
+    """pairs: (small line, big line).  The model is evaluated on the small line only; the implementation's
+    answer on the big line must be the same string.  Used where the big input differs from the small one by
+    something the model provably ignores (an unknown member of any size: theorems *_unknown_ignored) and is too
+    large for the extracted model to chew through in the time a quick run has."""
+    small = [a for a, _ in pairs]
+    big = [b for _, b in pairs]
+    want = run_model(small)
+    got = run_lines(IMPL_BIN[0], big, shards=4)
+    bad = 0
+    for (a, b), w, g in zip(pairs, want, got):
+        if w != g:
+            bad += 1
+            if bad <= 2:
+                path = write_replay(prop_id, {"property": prop_id, "case": b if len(b) < 200000 else b[:2000] + "...(truncated, regenerate from the small case)",
+                                              "small_case": a, "impl_observation": g[:2000], "model_observation_on_small_case": w[:2000], "broken": what})
+                print("VIOLATION property=%s replay=%s" % (prop_id, os.path.relpath(path, VERIF)))
+    return bad, len(pairs)
+
+
 def merge_stats(a, b):
     out = dict(a)
     for k, v in b.items():
